@@ -8,6 +8,10 @@
 //              16 previous use + reinit() inside the fault window)   W3: virtual register count, bits (1 logger, 2 error handler,
 //              4 two functions)   W4: allocator option bits, misc   W5: arena block size
 //     mode     bit0: continue after the first error (W1/W5 only; every later error is tolerated, no crash allowed)
+//              bit1 (W1-W3, hist == 0): CONTINUE WINDOW - an instruction call of the window (step codes 100..139) that returns
+//              kOutOfMemory is survived: the caller (an application whose error handler logs and returns) goes on with the next step.
+//              Every other call (section, label, bind, embed, ...) still stops the workload at its first error, so the model is
+//              exact: the output must be the output of the same program WITHOUT the failed calls
 //     hist     0: one generation (as before). != 0 (W1/W2/W3/W5): a HISTORY inside the fault window - the same objects run generation
 //              A (a prefix of the steps), are soft-reset, and run generation B (all steps = the larger program); only B's output is
 //              judged. mask 2: the in-window reset is CodeHolder::reinit() instead of reset(kSoft)+init()+attach() (W1-W3); mask 4: growing
@@ -15,6 +19,16 @@
 //              builder-arena requests larger than the kept block, W5 alloc_oneshot of 3x/5x/7x the block size, named labels with long
 //              names, a growing ConstPool); mask 8: three generations; masks 16+32: prefix of generation A (1/2, 1/4, 3/4, all)
 //   ops: [code<50, a, b, c]             program step of the workload (decoded robustly)
+//        [100..139, a, b, c]            W1-W3: window instruction. kind = (code-100) mod 9 (W1/W2 x86: lock-able ALU on memory, ALU with
+//                                       imm8 {long}, vaddps zmm {k}{z}/{er}, vmovups [mem]{k}, rep/repne movs/stos/scas, jmp/jz {short|long}
+//                                       to a label bound after the last step, vmaxps/vcmpps {sae}{k}, lock inc/xadd/cmpxchg, mov/lea;
+//                                       AArch64: the plain instructions) or mod 6 (W3: the same through virtual registers, a virtual
+//                                       {k} register; no jumps/rep). ONE-SHOT STATE armed before the call per `a`: a&7 = 0 nothing,
+//                                       1 inline comment, even: instruction options / extra register of the kind, odd >= 3: both
+//                                       (AArch64: comments only). Outside a continue window the call stops the workload like any other.
+//        [140..144, a, b, c]            W1-W3: "burn" - the next instruction meets an exhausted block: Builder/Compiler: the node arena is
+//                                       used up to its last 0/40/120 bytes (next node, or only the copy of its comment, needs malloc);
+//                                       Assembler: the section buffer is padded to 8..16 bytes below its capacity (next instruction grows it)
 //        [50..89, a, b, c]              W5 only: arena-history step, kind (code-50) mod 6: 0 soft reset of every container + Arena::reset(kSoft)
 //                                       1 large alloc_oneshot / alloc_oneshot_zeroed (1024..300000 bytes, c&1: at least twice the largest
 //                                       request so far) 2 large Arena::dup / ArenaString::set_data 3 ConstPool burst 4 ArenaVector growth
@@ -23,6 +37,7 @@
 //                                       (mmap/mprotect/ftruncate/shm_open/memfd_create); fail request #k (from != 0: every request
 //                                       >= k); optional size / site restrict the entry to requests of that size / issued by the
 //                                       function whose symbolised name hashes to `site`. k is taken modulo (clean-run count + 1).
+//        [90, kind, k, 0, 0, 0, period, until]  periodic entry: requests k, k+period, k+2*period, ... (below `until`, if given) fail
 // Oracle (vh_run): reference run on fresh objects (never faulted) -> faulty run on fresh objects -> (a) no crash / sanitizer report /
 // assertion / exception, (b) an injected fault must surface as an error of some API call or the output must be byte-identical,
 // (c) reset()/re-init of the SAME objects and a fault-free re-run must reproduce the reference output, (d) after destroying
@@ -30,6 +45,15 @@
 // check is clean, (e) after the faulted run and after the re-run every block listed by an Arena of the workload (W5 arena, CodeHolder
 // arena, ConstPool arena, Builder/Compiler node and pass arenas) is a live heap block: a stale link is reported under its own key
 // (<W>-<kind>-arena-references-released-block) before the use-after-free / double free it leads to aborts the process.
+// Continue window (mode bit1), additionally: (f) right after EVERY window call - above all after one that returned an error - the emitter
+// holds no one-shot state: inst_options() == none, no extra register, inline_comment() == null (<W>-<kind>-oneshot-state-survives-
+// failed-call; checked in every mode, also for the Assembler); (g) when every other call succeeded, output (bytes + Builder/Compiler node
+// list with options, extra register, operands and comment of every instruction) == output of a never-faulted run on fresh objects
+// of the program minus exactly the calls that reported kOutOfMemory (<W>-<kind>-continue-output-differs-from-program-minus-failed-
+// calls); (h) when a later call fails although no request was failed since the last survived failure and the program minus the
+// failed calls is valid, the error is a residue of the failed call (<W>-<kind>-continue-later-call-fails-without-new-fault).
+// A successful call whose inline-comment copy could not be allocated yields a node without comment (BaseBuilder::_emit ignores a
+// null Arena::dup): an annotation, not code - tolerated, counted (<W>.window.comment_copy_failed_call_succeeded) and modelled.
 #define VH_MAIN
 #include "vh.h"
 
@@ -46,6 +70,7 @@
 #include <sys/mman.h>
 #include <sys/syscall.h>
 
+#include <functional>
 #include <memory>
 #include <unordered_map>
 
@@ -65,7 +90,7 @@ namespace fi {
 static bool g_trace_fail = false;
 enum Kind : int { kArena = 0, kHeap = 1, kVm = 2, kKinds = 3 };
 static const char* const kKindName[] = {"arena", "heap", "vm"};
-struct Entry { int kind; uint64_t k; bool from; uint64_t size; uint64_t seen; uint64_t site; };   // site != 0: only requests whose requesting function hashes to it   // size != 0: only requests of exactly that size are counted by this entry
+struct Entry { int kind; uint64_t k; bool from; uint64_t size; uint64_t seen; uint64_t site; uint64_t period = 0; uint64_t until = 0; };   // period != 0: requests k, k+period, k+2*period, ... fail (until != 0: only requests below it)   // site != 0: only requests whose requesting function hashes to it   // size != 0: only requests of exactly that size are counted by this entry
 struct Blk { size_t size; uint64_t seq; int phase; };
 struct State {
   bool armed = false;      // requests are counted and failed according to the plan
@@ -76,6 +101,8 @@ struct State {
   bool marked = false;                 // the workload passed its first in-window soft reset
   uint64_t mark[kKinds] = {0, 0, 0};   // request counts at that moment
   uint64_t hits_after_mark = 0;        // faults injected after it
+  bool win_open = false;               // continue window: the request counts before its first and after its last tolerated-failure call
+  uint64_t win_lo[kKinds] = {0, 0, 0}, win_hi[kKinds] = {0, 0, 0};
   Entry plan[8];
   int nplan = 0;
   uint64_t heap_seq = 0;
@@ -124,7 +151,7 @@ static inline bool should_fail(int kind, const char* what, size_t req_size, bool
     Entry& e = S.plan[i];
     if (e.kind != kind || (e.size && e.size != req_size) || (e.site && e.site != sh)) continue;
     uint64_t seen = e.seen++;
-    if (e.from ? seen >= e.k : seen == e.k) fail = true;
+    if (e.period ? (seen >= e.k && (seen - e.k) % e.period == 0 && (!e.until || seen < e.until)) : e.from ? seen >= e.k : seen == e.k) fail = true;
   }
   if (!fail) return false;
   if (excluded_site) { S.suppressed++; return false; }
@@ -140,6 +167,8 @@ static void arm(const std::vector<Entry>& plan) {
   for (const Entry& e : plan) if (S.nplan < 8) { S.plan[S.nplan] = e; S.plan[S.nplan++].seen = 0; if (e.site) S.need_site = true; }
   for (int k = 0; k < kKinds; k++) { S.count[k] = 0; S.hits[k] = 0; S.mark[k] = 0; }
   S.marked = false; S.hits_after_mark = 0;
+  S.win_open = false;
+  for (int k = 0; k < kKinds; k++) { S.win_lo[k] = 0; S.win_hi[k] = 0; }
   S.last_fail = "";
   g_site[0] = 0;
   S.suppressed = 0;
@@ -149,6 +178,9 @@ static void disarm() { S.armed = false; }
 // Called by a workload immediately before its first soft reset inside the fault window.
 static void mark_reset_point() { if (S.armed && !S.marked) { S.marked = true; for (int k = 0; k < kKinds; k++) S.mark[k] = S.count[k]; } }
 static uint64_t total_hits() { return S.hits[0] + S.hits[1] + S.hits[2]; }
+// Called by a workload around every call of its continue window (an instruction whose failure the caller survives).
+static void window_call_begin() { if (S.armed && !S.win_open) { S.win_open = true; for (int k = 0; k < kKinds; k++) S.win_lo[k] = S.count[k]; } }
+static void window_call_end() { if (S.armed && S.win_open) for (int k = 0; k < kKinds; k++) S.win_hi[k] = S.count[k]; }
 } // namespace fi
 
 // Call-site identification for the arena hook (return addresses learned by calibration in vh_init).
@@ -274,6 +306,15 @@ struct Res {
   std::string full;           // superset compared between the reference and the re-run (layouts that may legitimately vary under faults)
   std::string sem;            // non-empty: the workload itself observed wrong content (semantic check), with description
   std::set<std::string> shapes;   // what the instantiation actually did (class counters)
+  // ---- continue window: instruction calls whose kOutOfMemory the caller survives (cfg[7] bit 1) ----
+  std::vector<uint32_t> failed_calls;       // window-call indices that returned kOutOfMemory and were survived
+  std::vector<uint32_t> dropped_comments;   // successful calls whose node has no inline comment because the copy of the text could not be allocated
+  std::string state_leak;                   // one-shot emitter state found right after a window call returned
+  std::string nodes;                        // Builder / Compiler: the node list before finalize(), one line per node
+  unsigned win_calls = 0, win_decorated = 0, win_failed_decorated = 0, win_failed_opt = 0, win_failed_xreg = 0, win_failed_comment = 0,
+           win_state_checks_after_failure = 0, win_next_checked = 0, win_next_decorated = 0;
+  uint64_t hits_at_last_survived = 0, hits_at_first_error = 0, survived_hits_before_error = 0;
+  size_t survived_before_error = 0;          // survived window failures before the first error that was not survived
 };
 
 // Records the first error; returns true when the workload has to stop.
@@ -284,7 +325,7 @@ struct Tracker {
   Tracker(Res& r_, bool cont_) : r(r_), cont(cont_) {}
   bool bad(Error e, const char* call) {
     if (e == Error::kOk) return false;
-    if (r.err == Error::kOk) { r.err = e; r.call = call; r.step = step; }
+    if (r.err == Error::kOk) { r.err = e; r.call = call; r.step = step; r.hits_at_first_error = fi::total_hits(); r.survived_hits_before_error = r.hits_at_last_survived; r.survived_before_error = r.failed_calls.size(); }
     else r.later_errors++;
     return !cont;
   }
@@ -298,11 +339,110 @@ class ErrH : public ErrorHandler {
 public:
   unsigned n = 0;
   Error last = Error::kOk;
-  void handle_error(Error err, const char*, BaseEmitter*) override { n++; last = err; }
+  void handle_error(Error err, const char* msg, BaseEmitter*) override { n++; last = err; if (getenv("C15_DEBUG")) fprintf(stderr, "handle_error: %s\n", msg); }
 };
+
+// One-shot state armed before an instruction call of the continue window.
+struct Deco {
+  InstOptions opts = InstOptions::kNone;
+  RegOnly xreg;                     // extra register ({k} mask); none when !is_reg()
+  Deco() { xreg.reset(); }
+  const char* comment = nullptr;    // static text (the emitter keeps the pointer until the instruction is emitted)
+  bool any() const { return opts != InstOptions::kNone || xreg.is_reg() || comment != nullptr; }
+};
+static const char* const kComments[] = {
+  "c", "spill slot 3", "loop header: induction variable update (unrolled x4)", "x = y", "call site #17",
+  "a much longer annotation that does not fit into any small string buffer: 0123456789 0123456789 0123456789 0123456789 0123456789"};
+
+// Continue window of a workload. `skip` / `drop` are inputs of the model run ("reference minus the failed calls"): window calls
+// that are not made at all / that are made without their inline comment.
+struct StreamCtl {
+  std::set<uint32_t> skip, drop;
+  uint32_t idx = 0;
+  bool prev_failed = false;
+  void restart() { idx = 0; prev_failed = false; }
+};
+static bool g_state_check = true;      // --statecheck=0: the emitter state after a window call is not judged (sensitivity experiments)
+
+struct Decoded;
+static bool decoded_stream(const Decoded& d);
+
+// Window call: arms the one-shot state, makes the call, judges the emitter's pending state right after it returned (it must be
+// clean after a success AND after a failure: options none, no extra register, no inline comment), and survives kOutOfMemory in
+// continue mode. `bb` (Builder / Compiler) is used to see whether a successful call kept the comment. Returns true when the
+// workload has to stop.
+template<typename F>
+static bool window_call(const Decoded& d, Tracker& T, StreamCtl& sc, BaseEmitter* e, BaseBuilder* bb, Deco dc, const char* name, F&& emit) {
+  Res& r = T.r;
+  uint32_t idx = sc.idx++;
+  if (sc.skip.count(idx)) return false;
+  if (sc.drop.count(idx)) dc.comment = nullptr;
+  bool deco = dc.any();
+  r.win_calls++;
+  if (deco) r.win_decorated++;
+  uint64_t h0 = fi::total_hits();
+  fi::window_call_begin();
+  if (dc.opts != InstOptions::kNone) e->add_inst_options(dc.opts);
+  if (dc.xreg.is_reg()) e->set_extra_reg(dc.xreg);
+  if (dc.comment) e->set_inline_comment(dc.comment);
+  Error err = emit();
+  fi::window_call_end();
+  if (g_state_check && r.state_leak.empty() && (e->inst_options() != InstOptions::kNone || e->has_extra_reg() || e->inline_comment() != nullptr)) {
+    char m[400];
+    snprintf(m, sizeof m, "right after window call #%u (%s, armed with options 0x%08X, extra register %s, comment %s) returned %u the emitter still holds one-shot state: "
+             "inst_options() = 0x%08X, has_extra_reg() = %d, inline_comment() = %s%.40s%s - it will be applied to the next instruction",
+             idx, name, unsigned(dc.opts), dc.xreg.is_reg() ? "yes" : "no", dc.comment ? "yes" : "no", unsigned(err), unsigned(e->inst_options()), int(e->has_extra_reg()),
+             e->inline_comment() ? "\"" : "", e->inline_comment() ? e->inline_comment() : "null", e->inline_comment() ? "\"" : "");
+    r.state_leak = m;
+  }
+  if (err == Error::kOk) {
+    if (sc.prev_failed) { r.win_next_checked++; if (deco) r.win_next_decorated++; }
+    sc.prev_failed = false;
+    if (bb && dc.comment && fi::total_hits() > h0) {
+      BaseNode* n = bb->cursor();
+      if (n && n->is_inst() && !n->has_inline_comment()) r.dropped_comments.push_back(idx);
+    }
+    return false;
+  }
+  r.win_state_checks_after_failure++;
+  if (getenv("C15_DEBUG")) fprintf(stderr, "window call #%u %s -> %u %s (options 0x%08X xreg %d comment %d)\n", idx, name, unsigned(err), DebugUtils::error_as_string(err), unsigned(dc.opts), int(dc.xreg.is_reg()), dc.comment != nullptr);
+  if (err == Error::kOutOfMemory && decoded_stream(d)) {
+    r.failed_calls.push_back(idx);
+    if (deco) r.win_failed_decorated++;
+    if (dc.opts != InstOptions::kNone) r.win_failed_opt++;
+    if (dc.xreg.is_reg()) r.win_failed_xreg++;
+    if (dc.comment) r.win_failed_comment++;
+    r.hits_at_last_survived = fi::total_hits();
+    sc.prev_failed = true;
+    return false;
+  }
+  return T.bad(err, name);
+}
+
+// Text of a Builder / Compiler node list: every instruction with its id, options, extra register, operands and inline comment.
+static void dump_nodes(BaseBuilder* bb, std::string& out) {
+  char b[160];
+  size_t guard = 0;
+  for (BaseNode* n = bb->first_node(); n && guard < 100000; n = n->next(), guard++) {
+    if (n->is_inst()) {
+      InstNode* in = n->as<InstNode>();
+      snprintf(b, sizeof b, "I%u id=%u opt=%08X xr=%08X/%u ops=%u", unsigned(n->type()), unsigned(in->inst_id()), unsigned(in->options()),
+               unsigned(in->extra_reg().signature().bits()), in->extra_reg().is_reg() ? unsigned(in->extra_reg().id()) : 0u, unsigned(in->op_count()));
+      out += b;
+      for (const Operand& o : in->operands()) {
+        uint32_t w[4]; static_assert(sizeof(Operand) == 16, "operand layout"); memcpy(w, &o, 16);
+        snprintf(b, sizeof b, " %08X:%08X:%08X:%08X", w[0], w[1], w[2], w[3]);
+        out += b;
+      }
+    } else { snprintf(b, sizeof b, "N%u", unsigned(n->type())); out += b; }
+    if (n->has_inline_comment()) { out += " ; "; out += n->inline_comment(); }
+    out += '\n';
+  }
+}
 
 class Workload {
 public:
+  StreamCtl sc;
   virtual ~Workload() {}
   virtual void run(Res& r) = 0;        // performs the complete work on this object's AsmJit objects
   virtual void reset(bool hard) = 0;   // resets / re-initialises every AsmJit object (faults disarmed)
@@ -353,11 +493,16 @@ struct Decoded {
   int W = 5, variant = 0;
   int64_t p[4] = {0, 0, 0, 0};
   bool hard = false, cont = false;
+  bool stream = false; // continue window: a kOutOfMemory of an instruction call of the window (step codes 100..139) is survived (W1-W3)
   int hist = 0;        // history bits (see the header comment); 0: a single generation
   std::vector<vh::Op> steps;
   std::vector<fi::Entry> plan;
   std::string key;     // text of the instantiation (without the plan): reference cache key
 };
+
+static bool decoded_stream(const Decoded& d) { return d.stream; }
+static bool is_window_step(const vh::Op& op) { return !op.empty() && op[0] >= 100 && op[0] < 140; }
+static bool is_burn_step(const vh::Op& op) { return !op.empty() && op[0] >= 140 && op[0] < 145; }
 
 static const char kKeyConstPoolShared[] = "constpool-shared-node-null-deref";
 
@@ -774,6 +919,55 @@ public:
   }
 
   Arena* builder_arena() { return !builder ? nullptr : arch == 0 ? &xb._builder_arena : &ab._builder_arena; }
+  BaseBuilder* base_builder() { return !builder ? nullptr : arch == 0 ? static_cast<BaseBuilder*>(&xb) : static_cast<BaseBuilder*>(&ab); }
+
+  // ---- continue window: instructions that carry one-shot state (x86: 9 kinds; AArch64: the plain instructions with comments) ----
+  static const int kWinKinds = 9;
+  Error win_inst_x86(x86::Emitter* x, int kind, int64_t b, int64_t c, const Label& L) {
+    x86::Mem m = x86::dword_ptr(x86::rbx, int32_t(umod(b, 32)) * 4);
+    switch (kind) {
+      case 0: switch (umod(c, 4)) { case 0: return x->add(m, x86::ecx); case 1: return x->xor_(m, x86::ecx); case 2: return x->or_(m, x86::edx); default: return x->and_(m, x86::esi); }
+      case 1: return x->add(x86::ecx, imm(1 + int(umod(b, 100))));
+      case 2: return x->vaddps(x86::zmm(uint32_t(umod(b, 8))), x86::zmm9, x86::zmm(16 + uint32_t(umod(c, 16))));
+      case 3: return x->vmovups(x86::zmmword_ptr(x86::rsi, int32_t(umod(b, 8)) * 64), x86::zmm(uint32_t(umod(c, 16))));
+      case 4: switch (umod(c, 3)) { case 0: return x->movs(x86::dword_ptr(x86::rdi), x86::dword_ptr(x86::rsi)); case 1: return x->stos(x86::dword_ptr(x86::rdi), x86::eax); default: return x->scas(x86::eax, x86::dword_ptr(x86::rdi)); }
+      case 5: return (c & 1) ? x->jz(L) : x->jmp(L);
+      case 6: return (c & 1) ? x->vcmpps(x86::k(2 + uint32_t(umod(b, 5))), x86::zmm1, x86::zmm2, imm(int(umod(c / 2, 8)))) : x->vmaxps(x86::zmm(uint32_t(umod(b, 8))), x86::zmm10, x86::zmm11);
+      case 7: switch (umod(c, 3)) { case 0: return x->inc(m); case 1: return x->xadd(m, x86::eax); default: return x->cmpxchg(m, x86::ecx); }
+      default: return (c & 1) ? x->mov(x86::rdx, imm(uint64_t(b) * 0x0101010101010101ull + 0x8000000000000000ull)) : x->lea(x86::rax, x86::ptr(x86::rbx, x86::rcx, 2, int32_t(b)));
+    }
+  }
+  // a: bits 0-2 select what is armed (0 nothing, 1 comment, even options, odd >= 3 both), a / 8 selects the option set of the kind
+  Deco win_deco(int kind, int64_t a, int64_t b, int64_t c, bool short_ok) {
+    Deco dc;
+    size_t sel = umod(a, 8), ov = umod(a / 8, 16);
+    bool want_comment = (sel & 1) != 0;
+    if (arch != 0) { if (sel) dc.comment = kComments[umod(b + c, NELEM(kComments))]; return dc; }
+    if (sel >= 2) {
+      InstOptions o = InstOptions::kNone;
+      bool kreg = false;
+      switch (kind) {
+        case 0: case 7: o = InstOptions::kX86_Lock; break;
+        case 1: o = InstOptions::kLongForm; break;
+        case 2: {
+          static const InstOptions vo[] = {InstOptions::kX86_ZMask, InstOptions::kNone, InstOptions::kX86_ER | InstOptions::kX86_RN_SAE, InstOptions::kX86_ER | InstOptions::kX86_RD_SAE,
+                                           InstOptions::kX86_ER | InstOptions::kX86_RU_SAE | InstOptions::kX86_ZMask, InstOptions::kX86_ER | InstOptions::kX86_RZ_SAE};
+          static const bool vk[] = {true, true, false, false, true, true};
+          o = vo[ov % 6]; kreg = vk[ov % 6];
+          break;
+        }
+        case 3: kreg = true; break;
+        case 4: o = (umod(c, 3) == 2 && (ov & 1)) ? InstOptions::kX86_Repne : InstOptions::kX86_Rep; break;
+        case 5: o = (short_ok && (ov & 1)) ? InstOptions::kShortForm : InstOptions::kLongForm; break;
+        case 6: o = InstOptions::kX86_SAE; if (ov & 1) { kreg = true; if (!(c & 1)) o |= InstOptions::kX86_ZMask; } break;
+        default: want_comment = true; break;
+      }
+      dc.opts = o;
+      if (kreg) dc.xreg.init(x86::k(1 + uint32_t(umod(b + int64_t(ov), 7))));
+    }
+    if (want_comment) dc.comment = kComments[umod(b + c, NELEM(kComments))];
+    return dc;
+  }
 
   bool arenas_ok(std::string& why) override {
     if (!arena_blocks_ok(code.arena(), "CodeHolder arena", why) || !arena_blocks_ok(pool_arena, "ConstPool arena", why)) return false;
@@ -787,6 +981,7 @@ public:
   void run(Res& r) override {
     Tracker T(r, d.cont);
     size_t ngen = hist_gens(d);
+    sc.restart();
     for (size_t g = 0; g < ngen; g++) {
       if (g) {
         // the history's soft reset, inside the fault window: the holder (and with it the attached emitter and its arenas), the
@@ -876,6 +1071,26 @@ public:
       for (size_t i = 1; i < nsec; i++) TRY(T, e->section(secs[i]), "section");
       TRY(T, e->section(secs[0]), "section");
     }
+    // Continue window. Its jumps go to one label that is bound right after the last step: allowed when no section switch follows
+    // (jump_ok), in short form only when nothing but at most 7 window instructions follow (short_ok: the displacement fits).
+    const size_t nrun = std::min(nsteps, d.steps.size());
+    std::vector<char> jump_ok(nrun, 0), short_ok(nrun, 0);
+    bool has_window = false;
+    {
+      bool no_switch = true, only_window = true;
+      size_t tail = 0;
+      for (size_t si = nrun; si-- > 0;) {
+        const vh::Op& op = d.steps[si];
+        jump_ok[si] = no_switch; short_ok[si] = only_window && tail <= 7;
+        if (is_window_step(op)) { has_window = true; tail++; }
+        else { only_window = false; if (!is_burn_step(op) && umod(argof(op, 0), 13) == 3) no_switch = false; }
+      }
+    }
+    Label L_end;
+    if (has_window && arch == 0) {
+      L_end = e->new_label();
+      if (T.bad(L_end.is_valid() ? Error::kOk : Error::kOutOfMemory, "new_label")) return;
+    }
     size_t cur = 0;
     unsigned named = 0;
     int sidx = 0;
@@ -883,6 +1098,32 @@ public:
       const vh::Op& op = d.steps[si];
       T.step = sidx++;
       int64_t a = argof(op, 1), b = argof(op, 2), c = argof(op, 3);
+      if (is_window_step(op)) {
+        int kind = int((argof(op, 0) - 100) % kWinKinds);
+        if (kind == 5 && (!jump_ok[si] || !L_end.is_valid())) kind = 0;
+        Deco dc = win_deco(kind, a, b, c, short_ok[si] != 0);
+        bool stop = arch == 0 ? window_call(d, T, sc, e, base_builder(), dc, "emit(window)", [&]() { return win_inst_x86(e->as<x86::Emitter>(), kind, b, c, L_end); })
+                              : window_call(d, T, sc, e, base_builder(), dc, "emit(window)", [&]() { return inst_plain(e, b, c); });
+        if (stop) return;
+        continue;
+      }
+      if (is_burn_step(op)) {
+        // The next instruction meets an exhausted block: the Builder's node arena is used up to the last 0 / 40 / 120 bytes (its
+        // next node, or only the copy of its comment, needs a new block = malloc); the Assembler's section buffer is padded up to
+        // 8..16 bytes below the capacity boundary (16288, 32608, 65248) that follows the current offset (its next instruction has to grow the buffer).
+        if (Arena* ba = builder_arena()) {
+          static const size_t keeps[] = {0, 40, 120};
+          size_t rem = ba->remaining_size() & ~size_t(Arena::kAlignment - 1), keep = keeps[umod(b, 3)];
+          if (rem > keep) { void* p = ba->alloc_oneshot(rem - keep); TRY(T, p ? Error::kOk : Error::kOutOfMemory, "Arena::alloc_oneshot(burn)"); }
+        } else {
+          size_t off = static_cast<BaseAssembler*>(e)->offset();
+          size_t bound = 2 * (8192u - Globals::kAllocOverhead) - Globals::kAllocOverhead;      // first capacity of a section buffer (CodeHolder::grow_buffer), then doubling
+          while (bound < off + 64) bound = (bound + Globals::kAllocOverhead) * 2 - Globals::kAllocOverhead;
+          size_t target = bound - 8 - 4 * umod(b, 3);
+          if (target > off && target <= 66000) { std::string filler(target - off, char(0x90)); if (arch == 1) for (size_t i = 0; i + 4 <= filler.size(); i += 4) memcpy(&filler[i], "\x1f\x20\x03\xd5", 4); TRY(T, e->embed(filler.data(), filler.size()), "embed(burn)"); }
+        }
+        continue;
+      }
       switch (umod(argof(op, 0), 13)) {
         case 0: TRY(T, inst_plain(e, a, b), "emit(plain)"); break;
         case 1: { size_t j = ref_label(a, cur); if (j < nl) TRY(T, inst_jump(e, c, L[j]), "emit(jump to label)"); break; }
@@ -950,6 +1191,7 @@ public:
       }
     }
     T.step = sidx;
+    if (L_end.is_valid()) TRY(T, e->bind(L_end), "bind");
     if (d.hist & 4) {
       // growing history: every generation asks for more than the previous one got.
       // (a) named labels with long names: the holder's arena (32 KiB blocks) gets a second block in generation A already
@@ -999,6 +1241,7 @@ public:
       if (nsec > 1 && cur != home(i)) { cur = home(i); TRY(T, e->section(secs[cur]), "section"); }
       if (L[i].is_valid()) TRY(T, e->bind(L[i]), "bind");
     }
+    if (builder) { r.nodes.clear(); if (!T.failed()) dump_nodes(base_builder(), r.nodes); }
     if (builder) { Error ef = e->finalize(); if (ef != Error::kOk && has_delta) tainted_delta = true; TRY(T, ef, "Builder::finalize"); }
     if (tainted_delta && g_excl_delta) { g_excluded_delta++; return; }
     TRY(T, code.flatten(), "CodeHolder::flatten");
@@ -1013,6 +1256,7 @@ public:
     put_u64(r.bytes, code.unresolved_fixup_count());
     for (Section* s : code.sections()) { put_u64(r.bytes, s->offset()); put_u64(r.bytes, s->buffer_size()); }
     r.bytes.append(reinterpret_cast<char*>(img.data()), cs);
+    r.bytes += r.nodes;
     r.full = r.bytes;
     r.full.append(logger.data(), logger.data_size());
   }
@@ -1066,6 +1310,20 @@ public:
     func->set_arg(0, ptr);
     func->set_arg(1, v[0]);
     for (size_t i = 1; i < nv; i++) TRY(T, cc.mov(v[i], imm(uint32_t(i * 3 + 1))), "emit(mov imm)");
+    // continue window (x86): three virtual zmm registers and a virtual {k} register, defined before the window
+    bool has_window = false;
+    for (size_t si = 0; si < nsteps && si < d.steps.size(); si++) if (is_window_step(d.steps[si])) has_window = true;
+    Reg zv[3], kv;
+    if constexpr (X) {
+      if (has_window) {
+        for (size_t i = 0; i < 3; i++) {
+          TRY(T, cc._new_reg_with_name(Out<Reg>(zv[i]), TypeId::kFloat32x16, "zv"), "Compiler::new_reg");
+          TRY(T, cc.vmovups(zv[i].as<x86::Vec>(), x86::zmmword_ptr(ptr, int32_t(i) * 64)), "emit(load)");
+        }
+        TRY(T, cc._new_reg_with_name(Out<Reg>(kv), TypeId::kMask16, "kv"), "Compiler::new_reg");
+        TRY(T, cc.kmovw(kv.as<x86::KReg>(), v[0]), "emit(kmov)");
+      }
+    }
     std::vector<Open> open;
     size_t ncnt = 0;
     unsigned invokes = 0;
@@ -1075,6 +1333,64 @@ public:
       T.step = sidx++;
       int64_t a = argof(op, 1), b = argof(op, 2), c = argof(op, 3);
       size_t ia = umod(a, nv), ib = umod(b, nv), ic = umod(c + a, nv);
+      if (is_window_step(op)) {
+        // an instruction of the continue window: virtual registers, one-shot state armed per `a` (see W1::win_deco)
+        int kind = int((argof(op, 0) - 100) % 6);
+        size_t sel = umod(a, 8), ov = umod(a / 8, 16);
+        Deco dc;
+        bool want_comment = (sel & 1) != 0;
+        if (!X) { if (sel) want_comment = true; }
+        else if (sel >= 2) {
+          switch (kind) {
+            case 0: case 4: dc.opts = InstOptions::kX86_Lock; break;
+            case 1: dc.opts = InstOptions::kLongForm; break;
+            case 2: {
+              static const InstOptions vo[] = {InstOptions::kX86_ZMask, InstOptions::kNone, InstOptions::kX86_ER | InstOptions::kX86_RN_SAE, InstOptions::kX86_ER | InstOptions::kX86_RU_SAE | InstOptions::kX86_ZMask};
+              static const bool vk[] = {true, true, false, true};
+              dc.opts = vo[ov % 4]; if (vk[ov % 4]) dc.xreg.init(kv);
+              break;
+            }
+            case 3: dc.xreg.init(kv); break;
+            default: want_comment = true; break;
+          }
+        }
+        if (want_comment) dc.comment = kComments[umod(b + c, NELEM(kComments))];
+        BaseBuilder* bb = &cc;
+        bool stop;
+        if constexpr (X) {
+          x86::Mem m = x86::dword_ptr(ptr, int32_t(umod(b, 16)) * 4);
+          stop = window_call(d, T, sc, &cc, bb, dc, "emit(window)", [&]() -> Error {
+            switch (kind) {
+              case 0: switch (umod(c, 3)) { case 0: return cc.add(m, v[ia]); case 1: return cc.xor_(m, v[ia]); default: return cc.or_(m, v[ia]); }
+              case 1: return cc.add(v[ia], imm(1 + int(umod(b, 100))));
+              case 2: return cc.vaddps(zv[umod(b, 3)].as<x86::Vec>(), zv[umod(c, 3)].as<x86::Vec>(), zv[umod(b + c, 3)].as<x86::Vec>());
+              case 3: return cc.vmovups(x86::zmmword_ptr(ptr, int32_t(umod(b, 4)) * 64), zv[umod(c, 3)].as<x86::Vec>());
+              case 4: return (c & 1) ? cc.inc(m) : cc.xadd(m, v[ia]);
+              default: return (c & 1) ? cc.add(v[ia], v[ib]) : cc.xor_(v[ia], v[ic]);
+            }
+          });
+        } else {
+          stop = window_call(d, T, sc, &cc, bb, dc, "emit(window)", [&]() -> Error {
+            switch (kind) {
+              case 0: return cc.add(v[ia], v[ib], v[ic]);
+              case 1: return cc.add(v[ia], v[ib], imm(1 + int(umod(b, 100))));
+              case 2: return cc.eor(v[ia], v[ib], v[ic]);
+              case 3: return cc.str(v[ia], a64::ptr(ptr, int32_t(umod(b, 16)) * 4));
+              case 4: return cc.ldr(v[ia], a64::ptr(ptr, int32_t(umod(b, 16)) * 4));
+              default: return cc.mul(v[ia], v[ib], v[ic]);
+            }
+          });
+        }
+        if (stop) return;
+        continue;
+      }
+      if (is_burn_step(op)) {
+        static const size_t keeps[] = {0, 40, 120};
+        Arena& ba = cc._builder_arena;
+        size_t rem = ba.remaining_size() & ~size_t(Arena::kAlignment - 1), keep = keeps[umod(b, 3)];
+        if (rem > keep) { void* p = ba.alloc_oneshot(rem - keep); TRY(T, p ? Error::kOk : Error::kOutOfMemory, "Arena::alloc_oneshot(burn)"); }
+        continue;
+      }
       switch (umod(argof(op, 0) + fidx * 3, 10)) {
         case 0: case 1: {
           if constexpr (X) { switch (umod(c, 4)) { case 0: TRY(T, cc.add(v[ia], v[ib]), "emit(alu)"); break; case 1: TRY(T, cc.xor_(v[ia], v[ib]), "emit(alu)"); break; case 2: TRY(T, cc.imul(v[ia], v[ib]), "emit(alu)"); break; default: TRY(T, cc.lea(v[ia], x86::ptr(v[ib].r64(), v[ic].r64(), 1, 7)), "emit(alu)"); break; } }
@@ -1171,6 +1487,7 @@ public:
   void run(Res& r) override {
     Tracker T(r, false);
     size_t ngen = hist_gens(d);
+    sc.restart();
     for (size_t g = 0; g < ngen; g++) {
       if (g) {
         // the history's soft reset, inside the fault window: holder and Compiler (node arena, pass arena, virtual registers) are
@@ -1222,6 +1539,8 @@ public:
       }
       TRY(T, e->embed(data.data(), len), "embed(growing)");
     }
+    r.nodes.clear();
+    dump_nodes(arch == 0 ? static_cast<BaseBuilder*>(&xc) : static_cast<BaseBuilder*>(&ac), r.nodes);
     TRY(T, e->finalize(), "Compiler::finalize");
     TRY(T, code.flatten(), "CodeHolder::flatten");
     TRY(T, code.resolve_cross_section_fixups(), "CodeHolder::resolve_cross_section_fixups");
@@ -1231,6 +1550,7 @@ public:
     TRY(T, code.copy_flattened_data(img.data(), cs, CopySectionFlags::kPadSectionBuffer | CopySectionFlags::kPadTargetBuffer), "CodeHolder::copy_flattened_data");
     put_u64(r.bytes, cs);
     r.bytes.append(reinterpret_cast<char*>(img.data()), cs);
+    r.bytes += r.nodes;
     r.full = r.bytes;
     r.full.append(logger.data(), logger.data_size());
   }
@@ -1564,15 +1884,20 @@ static Decoded decode(const vh::Case& c) {
   d.variant = int(umod(cfg(1), d.W == 4 ? 3 : 2));
   for (int i = 0; i < 4; i++) d.p[i] = cfg(2 + size_t(i));
   d.hard = (cfg(6) & 1) != 0;
-  // continue mode only where every later call validates what it gets: the Assembler (W1) and the containers (W5). After a failed
+  // continue-after-every-error mode only where every later call validates what it gets: the Assembler (W1) and the containers (W5). After a failed
   // Builder::section()/bind() the harness's model of section order would no longer match the node list (W2 excluded).
   d.cont = (cfg(7) & 1) != 0 && (d.W == 1 || d.W == 5);
   d.hist = d.W == 4 ? 0 : int(umod(cfg(8), 64));      // W4 re-uses its holder after reset(kSoft) for every function anyway
+  // continue window (W1-W3, single generation): an instruction call of the window that returns kOutOfMemory is survived - the caller goes on
+  // with the next step. Exactly modelled: the final output must be the output of the program without those calls. Every other call
+  // (sections, labels, binds, embeds, ...) still stops the workload at its first error.
+  d.stream = (cfg(7) & 2) != 0 && d.W >= 1 && d.W <= 3 && d.hist == 0;
   size_t nsteps = 0;
   for (const vh::Op& op : c.ops) {
     if (op.empty()) continue;
     if (op[0] == 90) {
-      if (d.plan.size() < 8) d.plan.push_back(fi::Entry{int(umod(argof(op, 1), 3)), uint64_t(argof(op, 2)) & 0xFFFFFFFull, argof(op, 3) != 0, uint64_t(argof(op, 4)) & 0xFFFFFFFFull, 0, uint64_t(argof(op, 5)) & 0x3FFFFFFFull});
+      if (d.plan.size() < 8) d.plan.push_back(fi::Entry{int(umod(argof(op, 1), 3)), uint64_t(argof(op, 2)) & 0xFFFFFFFull, argof(op, 3) != 0, uint64_t(argof(op, 4)) & 0xFFFFFFFFull, 0, uint64_t(argof(op, 5)) & 0x3FFFFFFFull,
+                                                        uint64_t(argof(op, 6)) & 0xFFFFull, uint64_t(argof(op, 7)) & 0xFFFFFFFull});
     } else if (nsteps < 160) { d.steps.push_back(op); nsteps++; }
   }
   vh::Case k; k.cfg = {d.W, d.variant, d.p[0], d.p[1], d.p[2], d.p[3], d.hist}; k.ops = d.steps;
@@ -1599,7 +1924,8 @@ static std::unique_ptr<Workload> make_workload(const Decoded& d) {
 // =============================================================================================
 // reference run (never faulted; counts the requests of each kind) — cached for the last instantiation
 // =============================================================================================
-struct RefInfo { std::string key; Res res; uint64_t n[fi::kKinds] = {0, 0, 0}; bool marked = false; uint64_t mark[fi::kKinds] = {0, 0, 0}; bool valid = false; };
+struct RefInfo { std::string key; Res res; uint64_t n[fi::kKinds] = {0, 0, 0}; bool marked = false; uint64_t mark[fi::kKinds] = {0, 0, 0}; bool valid = false;
+                 bool window = false; uint64_t win_lo[fi::kKinds] = {0, 0, 0}, win_hi[fi::kKinds] = {0, 0, 0}; };
 
 static void run_reference(const Decoded& d, RefInfo& R) {
   R = RefInfo();
@@ -1612,6 +1938,8 @@ static void run_reference(const Decoded& d, RefInfo& R) {
     fi::disarm();
     for (int k = 0; k < fi::kKinds; k++) { R.n[k] = fi::S.count[k]; R.mark[k] = fi::S.mark[k]; }
     R.marked = fi::S.marked;
+    R.window = fi::S.win_open;
+    for (int k = 0; k < fi::kKinds; k++) { R.win_lo[k] = fi::S.win_lo[k]; R.win_hi[k] = fi::S.win_hi[k]; }
   }
   R.valid = true;
 }
@@ -1637,6 +1965,7 @@ static std::string plan_text(const Decoded& d) {
   std::string s;
   for (const fi::Entry& e : d.plan) { char b[96]; if (e.site) snprintf(b, sizeof b, "%s%s[site %llu]#%llu%s", s.empty() ? "" : ",", fi::kKindName[e.kind], (unsigned long long)e.site, (unsigned long long)e.k, e.from ? "+" : "");
     else if (e.size) snprintf(b, sizeof b, "%s%s[size %llu]#%llu%s", s.empty() ? "" : ",", fi::kKindName[e.kind], (unsigned long long)e.size, (unsigned long long)e.k, e.from ? "+" : "");
+    else if (e.period) snprintf(b, sizeof b, "%s%s#%llu+every %llu%s%llu", s.empty() ? "" : ",", fi::kKindName[e.kind], (unsigned long long)e.k, (unsigned long long)e.period, e.until ? " below #" : "", (unsigned long long)e.until);
     else snprintf(b, sizeof b, "%s%s#%llu%s", s.empty() ? "" : ",", fi::kKindName[e.kind], (unsigned long long)e.k, e.from ? "+" : ""); s += b; }
   return s.empty() ? "none" : s;
 }
@@ -1651,7 +1980,7 @@ void vh_run(const vh::Case& c, vh::Ctx& ctx) {
   std::string kind = d.plan.empty() ? "none" : fi::kKindName[d.plan[0].kind];
   for (const fi::Entry& e : d.plan) if (fi::kKindName[e.kind] != kind) kind = "multi";
   const std::string pfx = W + "-" + kind + "-";
-  bool multi = d.plan.size() > 1 || (d.plan.size() == 1 && d.plan[0].from);
+  bool multi = d.plan.size() > 1 || (d.plan.size() == 1 && (d.plan[0].from || d.plan[0].period));
   std::string ptxt = plan_text(d);
 
   fi::S.live->clear(); fi::S.maps->clear(); fi::S.fds->clear(); fi::S.munmap_unknown = 0;
@@ -1669,7 +1998,12 @@ void vh_run(const vh::Case& c, vh::Ctx& ctx) {
 
   // positions are interpreted modulo (requests of that kind in the clean run + 1): every generated plan lands inside the run or
   // exactly one past its end (the "never reached" control); enumerated plans are unchanged by this
-  for (fi::Entry& e : d.plan) if (!e.site && !e.size) e.k %= (R.n[e.kind] + 1);
+  // (continue window: three of four generated positions are folded into the window, where a failure is survived)
+  for (fi::Entry& e : d.plan) if (!e.site && !e.size) {
+    uint64_t lo = R.win_lo[e.kind], hi = R.win_hi[e.kind];
+    if (d.stream && R.window && hi > lo && !e.period && !e.from && e.k > R.n[e.kind] && e.k % 4 != 0) e.k = lo + (e.k / 4) % (hi - lo);
+    else e.k %= (R.n[e.kind] + 1);
+  }
   ptxt = plan_text(d);
 
   // ---- faulty run on fresh objects ----
@@ -1709,6 +2043,76 @@ void vh_run(const vh::Case& c, vh::Ctx& ctx) {
   check_arenas("after the faulted run");
   if (hits_after_reset) { ctx.cls(W + "." + kind + ".fault_hit_after_soft_reset"); if (f.err != Error::kOk) ctx.cls(W + "." + kind + ".error_reported_after_soft_reset"); }
   VH_CHECK(ctx, f.sem.empty(), (pfx + "wrong-content").c_str(), "%s; %s", f.sem.c_str(), where);
+  // ---- continue window ----
+  // (a) right after every window call - above all after a FAILED one - the emitter holds no one-shot state
+  if (f.win_calls) {
+    const std::string C = W + (d.stream ? ".continue." : ".window.");
+    ctx.cls(C + "plans");
+    ctx.cls(C + "calls", f.win_calls);
+    ctx.cls(C + "calls_with_oneshot_state", f.win_decorated);
+    if (f.win_state_checks_after_failure) ctx.cls(C + "state_checked_after_failed_call", f.win_state_checks_after_failure);
+    VH_CHECK(ctx, f.state_leak.empty(), (pfx + "oneshot-state-survives-failed-call").c_str(), "%s; %s", f.state_leak.c_str(), where);
+  }
+  // (b) the model: the same program on fresh objects, never faulted, WITHOUT the window calls that reported kOutOfMemory (and without
+  //     the inline comment of the calls whose comment copy could not be allocated: a lost annotation is not an error of the call)
+  bool modelled = false;
+  if (!f.failed_calls.empty() || !f.dropped_comments.empty()) {
+    const std::string C = W + ".continue.";
+    if (!f.failed_calls.empty()) {
+      ctx.cls(C + "cases");
+      ctx.cls(C + "failed_calls", f.failed_calls.size());
+      ctx.cls(C + "failed_calls_with_oneshot_state", f.win_failed_decorated);
+      ctx.cls(C + "failed_calls_with_options", f.win_failed_opt);
+      ctx.cls(C + "failed_calls_with_extra_reg", f.win_failed_xreg);
+      ctx.cls(C + "failed_calls_with_comment", f.win_failed_comment);
+      ctx.cls(C + "failed_calls." + kind, f.failed_calls.size());
+      if (f.failed_calls.size() > 1) ctx.cls(C + "cases_with_2plus_failed_calls");
+      ctx.nontrivial();
+    }
+    if (!f.dropped_comments.empty()) {
+      ctx.cls(W + ".window.comment_copy_failed_call_succeeded", f.dropped_comments.size());
+      // --strictcomment=1 (triage): a call that returns kOk without the requested annotation is reported
+      if (ctx.opts && ctx.opts->geti("strictcomment", 0)) ctx.fail_unless_known(W + "-inline-comment-dropped-on-oom", std::string("window call #") + std::to_string(f.dropped_comments[0]) + " returned kOk but its node has no inline comment (the copy of the text could not be allocated); " + where);
+    }
+    Res m;
+    {
+      fi::S.phase = 3;
+      std::unique_ptr<Workload> wm = make_workload(d);
+      wm->sc.skip.insert(f.failed_calls.begin(), f.failed_calls.end());
+      wm->sc.drop.insert(f.dropped_comments.begin(), f.dropped_comments.end());
+      wm->run(m);
+    }
+    if (m.err != Error::kOk || !m.sem.empty()) {
+      ctx.cls(C + "model_run_failed");      // the program without the failed calls is not a valid program (generator problem, not a violation)
+      if (getenv("C15_DEBUG")) fprintf(stderr, "model run failed: %s -> %u at step %d\n%s", m.call, unsigned(m.err), m.step, c.to_text().c_str());
+    } else if (f.err == Error::kOk) {
+      modelled = true;
+      std::string detail;
+      if (f.nodes != m.nodes) {
+        // first differing node line
+        size_t i = 0, n = std::min(f.nodes.size(), m.nodes.size());
+        while (i < n && f.nodes[i] == m.nodes[i]) i++;
+        size_t b0 = f.nodes.rfind('\n', i ? i - 1 : 0); b0 = b0 == std::string::npos ? 0 : b0 + 1;
+        auto line = [&](const std::string& t) { size_t e0 = t.find('\n', b0); return b0 <= t.size() ? t.substr(b0, e0 == std::string::npos ? std::string::npos : e0 - b0) : std::string(); };
+        detail = "; first differing node: got [" + line(f.nodes) + "] expected [" + line(m.nodes) + "]";
+      }
+      VH_CHECK(ctx, f.bytes == m.bytes, (pfx + "continue-output-differs-from-program-minus-failed-calls").c_str(),
+               "%zu window call(s) returned kOutOfMemory and were survived (first: #%u), every other call returned kOk, but the output is not the output of the "
+               "program without those calls (%s)%s; %s", f.failed_calls.size(), f.failed_calls.empty() ? 0u : f.failed_calls[0], diff_text(f.bytes, m.bytes).c_str(), detail.c_str(), where);
+      if (!f.failed_calls.empty()) {
+        ctx.cls(C + "output_equals_program_minus_failed_calls");
+        ctx.cls(C + "next_instruction_checked", f.win_next_checked);
+        ctx.cls(C + "next_instruction_with_oneshot_state_checked", f.win_next_decorated);
+      }
+    } else if (!f.failed_calls.empty()) {
+      // a later call stopped the workload. Without a new fault between the last survived failure and that error, the error can only
+      // come from what the failed call left behind (the model run, which never made the failed calls, reports no error).
+      ctx.cls(C + "stopped_by_later_error");
+      VH_CHECK(ctx, f.survived_before_error == 0 || f.hits_at_first_error > f.survived_hits_before_error, (pfx + "continue-later-call-fails-without-new-fault").c_str(),
+               "window call #%u returned kOutOfMemory and was survived; later %s returned %u at step %d although no further request was failed and the "
+               "program without the failed call(s) reports no error; %s", f.failed_calls[f.survived_before_error ? f.survived_before_error - 1 : 0], f.call, unsigned(f.err), f.step, where);
+    }
+  }
   if (hit_total == 0) {
     ctx.cls(W + "." + kind + ".fault_not_reached");
     VH_CHECK(ctx, f.err == Error::kOk && f.bytes == R.res.bytes && f.full == R.res.full, (W + "-unfaulted-run-differs").c_str(),
@@ -1722,6 +2126,11 @@ void vh_run(const vh::Case& c, vh::Ctx& ctx) {
       if (f.later_errors) ctx.cls(W + ".continued_after_error");
       ctx.nontrivial();
       if (ctx.want_sample()) ctx.sample(W + " variant " + std::to_string(d.variant) + " " + ptxt + " -> " + f.call + " returned " + std::to_string(unsigned(f.err)) + " (failed request: " + failed_request + ")");
+    } else if (modelled) {
+      ctx.cls(W + "." + kind + ".continued_and_completed");
+      if (ctx.want_sample() && !f.failed_calls.empty()) ctx.sample(W + " variant " + std::to_string(d.variant) + " " + ptxt + " -> " + std::to_string(f.failed_calls.size()) + " window call(s) returned kOutOfMemory, the caller continued; output = program minus those calls");
+    } else if (!f.failed_calls.empty() || !f.dropped_comments.empty()) {
+      ctx.cls(W + "." + kind + ".continued_unmodelled");
     } else {
       ctx.cls(W + "." + kind + ".completed_despite_fault");
       if (getenv("C15_DEBUG") && f.bytes != R.res.bytes) { fprintf(stderr, "DIFF %s %s\n", ptxt.c_str(), failed_request); static int n = 0; char fn[64]; snprintf(fn, sizeof fn, "/tmp/c15_diff_%d.case", n++); vh::write_file(fn, c.to_text() + "end\n"); }
@@ -1754,7 +2163,7 @@ void vh_run(const vh::Case& c, vh::Ctx& ctx) {
     const auto& b = *fi::S.live->begin();
     char m[400];
     snprintf(m, sizeof m, "%zu heap block(s) allocated by AsmJit are still live after every object was destroyed (first: %zu bytes, heap request #%llu of the case, phase %s); %s",
-             fi::S.live->size(), b.second.size, (unsigned long long)b.second.seq, b.second.phase == 0 ? "reference" : b.second.phase == 1 ? "faulty run" : "re-run", where);
+             fi::S.live->size(), b.second.size, (unsigned long long)b.second.seq, b.second.phase == 0 ? "reference" : b.second.phase == 1 ? "faulty run" : b.second.phase == 3 ? "model run" : "re-run", where);
     for (auto& kv : *fi::S.live) __real_free(kv.first);   // keep LeakSanitizer quiet for the following cases
     fi::S.live->clear();
     ctx.fail_unless_known(W + "-leak", m);
@@ -1814,8 +2223,11 @@ rc::Gen<vh::Case> vh_gen(const vh::Opts&) {
     int W = *vh::irange<int>(1, 5);
     // a third of the instantiations are histories (soft reset + larger program inside the fault window)
     int hist = *vh::irange<int>(0, 2) == 0 ? *vh::irange<int>(1, 63) : 0;
+    // mode: bit 0 continue after every error (W1/W5), bit 1 continue window (W1-W3: a failed instruction of the window is survived)
+    static const int modes[] = {1, 1, 2, 2, 3, 0, 0, 0};
+    int mode = modes[*vh::irange<int>(0, 7)];
     return {W, *vh::irange<int>(0, 2), *vh::irange<int>(0, 63), *vh::irange<int>(0, 63), *vh::irange<int>(0, 63), *vh::irange<int>(0, 63),
-            *vh::irange<int>(0, 1), *vh::irange<int>(0, 3) == 0 ? 1 : 0, hist};
+            *vh::irange<int>(0, 1), mode, hist};
   });
   return gen::apply([](std::vector<int64_t> cfg, std::vector<vh::Op> steps, std::vector<vh::Op> plan) {
       vh::Case c; c.cfg = std::move(cfg); c.ops = std::move(steps);
@@ -1823,6 +2235,15 @@ rc::Gen<vh::Case> vh_gen(const vh::Opts&) {
       // virtual-memory faults only exist in W4 (there they replace half of the arena entries); positions are folded into the
       // request count of the instantiation's clean run by vh_run (k mod (count + 1))
       int W = int(c.cfg[0]);
+      // W1-W3: with a continue window two thirds of the steps become window instructions (one-shot state per their arguments), a few
+      // become "burn" steps (the next instruction meets an exhausted arena block / code buffer); without one, one step in eight
+      if (W >= 1 && W <= 3) {
+        bool win = (c.cfg[7] & 2) != 0 && c.cfg[8] == 0;
+        for (auto& op : c.ops) {
+          if (op.size() < 4 || op[0] >= 50) continue;
+          if (win ? op[1] % 3 != 0 : op[1] % 8 == 5) op[0] = op[2] % 16 == 0 ? 140 + op[1] % 5 : 100 + (op[1] / 3 + op[2]) % 40;
+        }
+      }
       for (auto& p : plan) {
         if (W != 4 && p[1] == 2) p[1] = 0;
         else if (W == 4 && p[1] == 0 && (p[2] & 1)) p[1] = 2;
@@ -1877,11 +2298,32 @@ static vh::Case w5_history_instance(uint64_t seed) {
   return c;
 }
 
+// Continue-window instantiation: a few ordinary steps, then a stream of window instructions (most of them armed with one-shot
+// state; two "burn" steps put a block / buffer boundary into the stream), then the usual epilogue. cfg[7] = 2.
+static vh::Case window_instance(int W, int variant, uint64_t seed, size_t nwin) {
+  vh::Case c;
+  uint64_t s = seed * 7654321ull + uint64_t(W) * 131 + uint64_t(variant) * 17 + 99;
+  c.cfg = {W, variant, int64_t(sm64(s) % 64), int64_t(sm64(s) % 64), int64_t(sm64(s) % 64), int64_t(sm64(s) % 64) & ~int64_t(16 | 8), int64_t(seed & 1), 2, 0};
+  static const int64_t pre[] = {0, 8, 12, 0};                      // plain instruction, align, data array (W3: alu, load, store ... by its own table)
+  for (size_t i = 0; i < 3; i++) c.ops.push_back(vh::Op{W == 3 ? int64_t(i) : pre[i], int64_t(sm64(s) % 1001), int64_t(sm64(s) % 256), int64_t(sm64(s) % 16)});
+  for (size_t i = 0; i < nwin; i++) {
+    if (i == nwin / 4 || i == (nwin * 2) / 3) c.ops.push_back(vh::Op{140, 0, int64_t((seed + i) % 3), 0});
+    // the first instructions walk through every kind once; three in four carry one-shot state
+    int64_t kind = i < 9 ? int64_t((i + seed) % 9) : int64_t(sm64(s) % 9);
+    int64_t a = int64_t(sm64(s) % 1001);
+    if (i % 4 == 3) a &= ~int64_t(7);                              // nothing armed
+    else if ((a & 7) == 0) a |= int64_t(1 + sm64(s) % 7);
+    c.ops.push_back(vh::Op{100 + kind + 9 * int64_t(sm64(s) % 4), a, int64_t(sm64(s) % 256), int64_t(sm64(s) % 16)});
+  }
+  return c;
+}
+
 static std::vector<vh::Case>* g_enum = nullptr;
 static uint64_t g_enum_total = 0;
 static std::map<std::string, uint64_t> g_enum_points;
 static std::set<std::string> g_enum_sites;
 
+static void build_window_enumeration(const vh::Opts& o, const std::function<void(const vh::Case&)>& enum_add);
 static void build_enumeration(const vh::Opts& o) {
   g_enum = new std::vector<vh::Case>();
   // only this worker's share is stored (the cases stay live for the whole run and every LeakSanitizer check walks the live heap)
@@ -1991,6 +2433,36 @@ static void build_enumeration(const vh::Opts& o) {
       }
     }
   }
+  build_window_enumeration(o, enum_add);
+}
+
+// ---- continue windows (W1-W3): EVERY arena / heap position inside the window fails once, and periodic plans (requests lo+i,
+// lo+i+p, lo+i+2p, ... of the window fail, p = 2, 3, 4, 5, 7, every i < p): many failed calls per run, each followed by calls that succeed ----
+static void build_window_enumeration(const vh::Opts& o, const std::function<void(const vh::Case&)>& enum_add) {
+  size_t nwin = o.is_thorough() ? size_t(o.geti("windows", 12)) : size_t(o.geti("windows", 4));
+  for (int W = 1; W <= 3; W++) {
+    if (!g_enable[W]) continue;
+    for (int v = 0; v < 2; v++) {
+      size_t ninst = (W == 1 || v == 1) ? std::max<size_t>(1, nwin - 1) : nwin;
+      for (size_t inst = 0; inst < ninst; inst++) {
+        vh::Case base = window_instance(W, v, inst + 1, 36 + 6 * (inst % 3));
+        Decoded d = decode(base);
+        RefInfo R;
+        fi::S.tracking = false;
+        run_reference(d, R);
+        if (R.res.err != Error::kOk || !R.window) { fprintf(stderr, "C15: continue-window instantiation W%d variant %d #%zu %s (%s -> %u at step %d)\n", W, v, inst, R.window ? "fails without faults" : "has no window", R.res.call, unsigned(R.res.err), R.res.step); continue; }
+        for (int kind = 0; kind < 2; kind++) {
+          uint64_t lo = R.win_lo[kind], hi = R.win_hi[kind];
+          if (hi <= lo) continue;
+          g_enum_points[std::string(wname(W)) + ".window." + fi::kKindName[kind]] += hi - lo;
+          for (uint64_t k = lo; k < hi; k++) { vh::Case c = base; c.ops.push_back(fault_op(kind, int64_t(k), 0)); enum_add(c); }
+          static const int64_t periods[] = {2, 3, 4, 5, 7};
+          if (kind == fi::kArena) for (int64_t p : periods) for (int64_t i = 0; i < p; i++) { vh::Case c = base; c.ops.push_back(vh::Op{90, kind, int64_t(lo) + i, 0, 0, 0, p, int64_t(hi)}); enum_add(c); }
+          else { vh::Case c = base; c.ops.push_back(vh::Op{90, kind, int64_t(lo), 0, 0, 0, 1, int64_t(hi)}); enum_add(c); }     // every heap request of the window fails
+        }
+      }
+    }
+  }
 }
 
 bool vh_enum(const vh::Opts& o, uint64_t k, vh::Case& out) {
@@ -2036,6 +2508,7 @@ void vh_init(const vh::Opts& o, vh::Ctx& ctx) {
   if (only) for (int w = 1; w <= 5; w++) g_enable[w] = (only == w);
   g_lsan_every = uint64_t(o.geti("lsan", 1));
   g_arena_check = o.geti("arenacheck", 1) != 0;
+  g_state_check = o.geti("statecheck", 1) != 0;
   fi::g_trace_fail = o.geti("trace", 0) != 0;
 #ifdef C15_HAVE_W4
   warm_up_process_caches();
